@@ -13,15 +13,18 @@
 (***************************************************************************)
 EXTENDS Integers, Sequences, F64, Poly, QuadTables
 
+RECURSIVE FunEval(_, _), IntInterval(_, _, _)
 FunEval(f, x) ==
-  CASE f.k = "poly" -> PEval(f.c, <<x, F0>>)
+  CASE f.k = "mix" -> <<FunEval(f.re, x)[1], FunEval(f.im, x)[1]>>       \* real part of f.re + i * real part of f.im
+    [] f.k = "poly" -> PEval(f.c, <<x, F0>>)
     [] f.k = "exp" -> <<FMul(f.p[1], FExp(FMul(f.p[2], x))), F0>>
     [] f.k = "sin" -> <<FMul(f.p[1], FSin(FAdd(FMul(f.p[2], x), f.p[3]))), F0>>
     [] f.k = "cis" -> LET a == FAdd(FMul(f.p[2], x), f.p[3]) IN <<FMul(f.p[1], FCos(a)), FMul(f.p[1], FSin(a))>>
 
 \* ---- plain integrals over [lo, hi] ------------------------------------------------------------
 IntInterval(f, lo, hi) ==
-  CASE f.k = "poly" -> LET A == PAnti(f.c, C0) IN CSub(PEval(A, <<hi, F0>>), PEval(A, <<lo, F0>>))
+  CASE f.k = "mix" -> <<IntInterval(f.re, lo, hi)[1], IntInterval(f.im, lo, hi)[1]>>
+    [] f.k = "poly" -> LET A == PAnti(f.c, C0) IN CSub(PEval(A, <<hi, F0>>), PEval(A, <<lo, F0>>))
     [] f.k = "exp" -> <<FMul(FDiv(f.p[1], f.p[2]), FSub(FExp(FMul(f.p[2], hi)), FExp(FMul(f.p[2], lo)))), F0>>
     [] f.k = "sin" -> <<FMul(FDiv(f.p[1], f.p[2]),
                            FSub(FCos(FAdd(FMul(f.p[2], lo), f.p[3])), FCos(FAdd(FMul(f.p[2], hi), f.p[3])))), F0>>
